@@ -263,6 +263,34 @@ def worker(job):
                 if runs2 != want2 or rc2 != 0:
                     st.violate("exec-single", None, {"args": ["find"] + a2[1:], "problems": ["runs (cwd, argv) %r, expected %r" % (runs2[:3], want2[:3])],
                                                      "exit": rc2, "stderr": err2[-200:]}, {"args": ["find"] + a2[1:]})
+            if t % 10 == 3 and top == "r":
+                # find's own standard output cannot be written (a full device) and output is pending in its buffer when the action is
+                # reached: what happens to find's output is C11's and C01's business - the command is still run once per entry, in order
+                import subprocess
+                xlog = os.path.join(sb, "rec-full.log")
+                pr = rng.choice([["-printf", "x"], ["-printf", "%p"], ["-print0"], ["-printf", "a\\nb"], []])
+                a4 = [common.FIND, "r", "-sorted"] + pr + [kind, common.REC, tag + "full", "{}", ";"]
+                try:
+                    with open("/dev/full", "wb") as so:
+                        p4 = subprocess.run(a4, cwd=sb, env=common.clean_env({"VERIF_REC_LOG": xlog}), stdout=so, stderr=subprocess.PIPE, timeout=120)
+                    rc4, err4, to4 = p4.returncode, p4.stderr, False
+                except subprocess.TimeoutExpired:
+                    rc4, err4, to4 = None, b"", True
+                seq4 = []
+                w4 = refwalk.Walk("P", 0, None, False, True, sb)
+                w4.run("r", lambda e: seq4.append(e.path) and False)
+                runs4 = [[x.decode("utf-8", "surrogateescape") for x in argv_] for cwd_, argv_ in xref.read_reclog(xlog)]
+                if kind == "-execdir":
+                    want4 = [[tag + "full", "./" + p_.rsplit("/", 1)[-1]] for p_ in seq4]
+                else:
+                    want4 = [[tag + "full", p_] for p_ in seq4]
+                st.inc("evaluations")
+                st.inc("runs_with_pending_output_on_an_unwritable_stdout")
+                if to4 or rc4 in (101, 134, -6, -11) or runs4 != want4:
+                    st.violate("exec-single", None, {"args": ["find"] + a4[1:], "stdout": "/dev/full",
+                                                     "problems": ["%d runs, expected %d (first difference: %r)" % (
+                                                         len(runs4), len(want4), next(((g, w_) for g, w_ in zip(runs4 + [None], want4 + [None]) if g != w_), None))],
+                                                     "exit": rc4, "stderr": err4[-200:]}, {"args": ["find"] + a4[1:], "stdout": "/dev/full", "tree": [n.to_json() for n in nodes]})
             if t % 10 == 5 and top == "r":
                 # starting points whose last component is '..' (or that are '/'): -execdir on an entry directly below them runs in
                 # that directory - which is not find's own working directory here
